@@ -720,12 +720,30 @@ theorem stepOK (P : Prog) (c : Cfg) : StepOK P c := by
     | endPI => exact sstep_endPI hc
     | afterQuit => exact sstep_afterQuit hc
 
+theorem SStepE.ev_eq {P : Prog} {v v' : SV} {evs : List Tr} (h : SStepE P v evs v') : v'.ev = evs ++ v.ev := by
+  cases h <;> first | rfl | (cases ‹Kind› <;> rfl)
+
+theorem newTr_of_grow {c c' : Cfg} {new : List Tr} (h : c'.tr = new ++ c.tr) : newTr c c' = new := by
+  simp [newTr, h]
+
 /-- every transition of an execution, through the shape view -/
-theorem trans_sstep {P : Prog} {c c' : Cfg} (h : Trans P c c') : SStep P c.sv c'.sv ∧ Grow c c' := by
-  cases h with
-  | step h => have := stepOK P c; unfold StepOK at this; rwa [outCfg_of_ok h] at this
-  | deliver h => rw [sv_deliver h]; exact ⟨SStep.stutter _, grow_deliver h (Grow.refl c)⟩
-  | halt h => have := stepOK P c; unfold StepOK at this; rwa [outCfg_of_error h] at this
+theorem trans_sstep {P : Prog} {c c' : Cfg} (h : Trans P c c') :
+    ∃ evs, SStepE P c.sv evs c'.sv ∧ shapeTr (newTr c c') = evs ∧ Grow c c' := by
+  have key : SStep P c.sv c'.sv ∧ Grow c c' := by
+    cases h with
+    | step h => have := stepOK P c; unfold StepOK at this; rwa [outCfg_of_ok h] at this
+    | deliver h => rw [sv_deliver h]; exact ⟨SStep.stutter _, grow_deliver h (Grow.refl c)⟩
+    | halt h => have := stepOK P c; unfold StepOK at this; rwa [outCfg_of_error h] at this
+  obtain ⟨⟨evs, hs⟩, hg⟩ := key
+  refine ⟨evs, hs, ?_, hg⟩
+  obtain ⟨new, hnew⟩ := hg
+  rw [newTr_of_grow hnew]
+  have h1 := SStepE.ev_eq hs
+  have h2 : c'.sv.ev = shapeTr new ++ c.sv.ev := by
+    show shapeTr c'.tr = _
+    rw [hnew, shapeTr_append]; rfl
+  rw [h2] at h1
+  exact List.append_cancel_right h1
 
 end Shape
 
